@@ -19,6 +19,7 @@ type Replay struct {
 	Result      string            `json:"solver_result"`
 	Solvers     map[string]string `json:"solvers"`
 	Model       map[string]string `json:"model,omitempty"`
+	ModelFrom   string            `json:"model_from,omitempty"`
 	SolverOut   string            `json:"solver_output"`
 	Reproduced  bool              `json:"reproduced_on_real_code"`
 	ReplayNote  string            `json:"replay_note"`
@@ -36,9 +37,18 @@ func buildReplay(o checkOpts, w *World, ob *Obligation) *Replay {
 	if ob.Res.Status == "sat" {
 		rp.Model = parseGetValues(ob.Res.Output)
 	}
+	if ob.Res.Status != "sat" && ob.vc != nil && ob.Kind == "post" && scalarConcretisable(ob.vc.fn) {
+		// No model (quantified condition: the solvers time out instead of answering sat). Look for a
+		// candidate input in the quantifier-free part of the condition - dropping assumptions only adds
+		// models, and a candidate counts for nothing unless the REAL function misbehaves on it.
+		if m := quantifierFreeModel(ob); m != nil {
+			rp.Model = m
+			rp.ModelFrom = "quantifier-free part of the condition (candidate input, judged only by running the real code)"
+		}
+	}
 	if c := concretisers[ob.Func]; c != nil && ob.Res.Status == "sat" {
 		c(o, w, ob, rp)
-	} else if ob.Res.Status == "sat" && ob.vc != nil {
+	} else if rp.Model != nil && ob.vc != nil {
 		genericScalarReplay(o, w, ob, rp, ob.vc.fn, ob.vc)
 	}
 	if !rp.Reproduced && rp.ReplayNote == "" {
@@ -49,6 +59,29 @@ func buildReplay(o checkOpts, w *World, ob *Obligation) *Replay {
 		}
 	}
 	return rp
+}
+
+// quantifierFreeModel re-asks the obligation's query with every quantified assertion left out.
+func quantifierFreeModel(ob *Obligation) map[string]string {
+	if ob.enc == nil {
+		return nil
+	}
+	q := ob.enc.queryP(ob.seq, []string{"(assert " + ob.reach.S + ")", "(assert (not " + ob.goal.S + "))"}, ob.values, false, ob.keep, ob.Props)
+	var b strings.Builder
+	lines := strings.Split(q, "\n")
+	for i, l := range lines {
+		last := i >= len(lines)-3-len(ob.values) // the reach/goal assertions and what follows stay
+		if !last && strings.HasPrefix(l, "(assert") && (strings.Contains(l, "(forall ") || strings.Contains(l, "(exists ")) {
+			continue
+		}
+		b.WriteString(l)
+		b.WriteByte('\n')
+	}
+	sr := solve("qf-"+ob.Name, b.String(), 10, 1)
+	if sr.Status != "sat" {
+		return nil
+	}
+	return parseGetValues(sr.Output)
 }
 
 // parseGetValues reads `((name value))` lines produced by (get-value ...).
